@@ -86,6 +86,76 @@ let () =
             (match run_read_u64 all addr with
              | None -> "U -"
              | Some v -> "U " ^ string_of_z v)
+          | "T" ->
+            (* the D-spec subset of a thread-loop case: cpu= os= mem64= B= T= X= M= U= R= (numbers decimal or 0x-hex) *)
+            let cpu = ref "x86" and os = ref "win" and mem64 = ref false in
+            let bp = ref None and exc = ref None in
+            let threads = ref [] and mods = ref [] and unl = ref [] and regions = ref [] in
+            let num (t : string) : z = z_of_string t in
+            let bytes_spec (t : string) : z list =
+              if t = "-" || t = "" then []
+              else if t.[0] = 'z' then List.init (int_of_string (String.sub t 1 (String.length t - 1))) (fun _ -> z_of_int 0)
+              else unhex t in
+            let regs_spec (t : string) : (string * z) list option =
+              if t = "-" then None
+              else if t = "" || t = "0" then Some []
+              else Some (List.map (fun kv -> match String.split_on_char '=' kv with
+                  | [k; v] -> (k, num v) | _ -> failwith "reg=val") (String.split_on_char ',' t)) in
+            while !pos < Array.length toks do
+              let t = next () in
+              let (k, v) = match String.index_opt t '=' with
+                | Some i -> (String.sub t 0 i, String.sub t (i + 1) (String.length t - i - 1))
+                | None -> (t, "") in
+              let f = Array.of_list (String.split_on_char ':' v) in
+              (match k with
+               | "cpu" -> cpu := v
+               | "os" -> os := v
+               | "mem64" -> mem64 := (v = "1")
+               | "opt" -> ()
+               | "B" -> bp := Some (num f.(0), num f.(1))
+               | "T" -> threads := (num f.(0), num f.(1), bytes_spec f.(2), regs_spec f.(3)) :: !threads
+               | "X" -> exc := Some (num f.(0), regs_spec f.(7))
+               | "M" -> mods := (num f.(0), num f.(1)) :: !mods
+               | "U" -> unl := (num f.(0), num f.(1)) :: !unl
+               | "R" -> regions := (num f.(0), bytes_spec f.(1)) :: !regions
+               | _ -> failwith ("T case: token " ^ k))
+            done;
+            let threads = List.rev !threads and mods = List.rev !mods and unl = List.rev !unl and regions = List.rev !regions in
+            let (archid, ipn, spn, fpn, lrn) = match !cpu with
+              | "x86" -> (0, "eip", "esp", "ebp", "")
+              | "amd64" -> (1, "rip", "rsp", "rbp", "")
+              | "arm" -> (2, "pc", "sp", "fp", "lr")
+              | "arm64" -> (3, "pc", "sp", "fp", "lr")
+              | "arm64old" -> (6, "pc", "sp", "fp", "lr")
+              | "mips" -> (4, "pc", "sp", "fp", "ra")
+              | "mips64" -> (5, "pc", "sp", "fp", "ra")
+              | "ppc" | "ppc64" -> (7, "srr0", "r1", "", "")
+              | "sparc" -> (7, "pc", "g_r14", "", "")
+              | c -> failwith ("T case: cpu " ^ c) in
+            let osid = match !os with "win" -> 1 | "ios" -> 2 | _ -> 0 in
+            let ctx_of (r : (string * z) list option) = match r with
+              | None -> None
+              | Some l ->
+                let g n = if n = "" then z_of_int 0 else (try List.assoc n l with Not_found -> z_of_int 0) in
+                Some (((g ipn, g spn), g fpn), g lrn) in
+            (* thread stacks: with mem64 the thread's own descriptor is empty and the stack is a Memory64List region;
+               otherwise it is the thread's own memory (None when it has no bytes: MinidumpMemory::read fails on data_size 0)
+               and an entry of the MemoryList *)
+            let th = List.map (fun (id, base, bytes, regs) ->
+                (((id, ctx_of regs), (if !mem64 || bytes = [] then None else Some (base, bytes))), base)) threads in
+            let mem = List.map (fun (_, base, bytes, _) -> (base, bytes)) threads @ regions in
+            let (dump_tid, req_tid) = match !bp with Some (d, r) -> (Some d, Some r) | None -> (None, None) in
+            let (crash_tid, exc_ctx) = match !exc with Some (tid, r) -> (Some tid, ctx_of r) | None -> (None, None) in
+            (match run_process (z_of_int archid) (z_of_int osid) th dump_tid crash_tid req_tid exc_ctx mem mods unl with
+             | None -> "P;;"
+             | Some (outs, req) ->
+               "T req=" ^ (match req with Some i -> string_of_z i | None -> "-") ^ " " ^
+               String.concat ";" (List.map (fun (((id, info), frames), offs) ->
+                   Printf.sprintf "%s:%s:%s:%s" (string_of_z id) (string_of_z info)
+                     (String.concat "," (List.map (fun (i, t) -> string_of_z i ^ "/" ^ string_of_z t) frames))
+                     (String.concat "," (List.map (fun l ->
+                          String.concat "+" (List.sort (fun a b -> compare (String.length a, a) (String.length b, b)) (List.map string_of_z l))) offs)))
+                   outs))
           | "J" ->
             let rd () = let n = int_of_string (next ()) in
               List.init n (fun _ -> let a = nz () in let b = nz () in (a, b)) in
